@@ -501,7 +501,11 @@ def correspondence(ctx):
                 "echo delayed 0..2 intervals (+); wrong / missing / non-numeric TestReqID; peer probing us; a sequence gap "
                 "followed by the PossDup / GapFill replay at paces 0.4h..2.5h (RESENDREQ_AWAITING in between), the "
                 "ResendRequest ignored with and without too-high chatter; connections starting in RESENDREQ_AWAITING / "
-                "RESENDREQ_HANDLING / RECV_SEQNUM_TOO_HIGH} x {tick gap "
+                "RESENDREQ_HANDLING / RECV_SEQNUM_TOO_HIGH; numbering relation of every frame kind (expected / gap = "
+                "too high / PossDup duplicate = too low) for echoes, Heartbeats, TestRequests, application frames; "
+                "inbound ResendRequests (valid / for never-sent numbers), lost frames and stray frames as extra events on "
+                "quiet-but-responsive, chatty and silent peers; the peer keeps its own counter and serves our "
+                "ResendRequests by gap fill / replay / never} x {tick gap "
                 "patterns 1000..1875 ms} x {phase of the grid relative to the last frame} x {sub-second offset of t0, "
                 "tick-or-frame first on ties, role, counters, journal shape}; every event of every scenario is one "
                 "evaluation (real coroutine vs. model from the same pre-state, effects with SendingTime + full "
